@@ -754,8 +754,13 @@ fn written_type_nesting(written: &str) -> usize {
     // seen since the last comma at that level.
     let mut prefixes = vec![0usize];
     let mut deepest = 0usize;
+    let mut previous = ' ';
     for c in written.chars() {
+        let arrow = c == '>' && previous == '-';
+        previous = c;
         match c {
+            // (the `>` of a function type's `->` closes nothing)
+            _ if arrow => continue,
             '<' | '[' | '(' => prefixes.push(0),
             '>' | ']' | ')' => {
                 if prefixes.len() > 1 {
